@@ -142,8 +142,12 @@ def _param_sets(tier):
         "Non_diagonal": [({"fq": R(1, 2)}, [(R(1), R(0), R(0), 2 * asin(R(3, 5))), (R(2), R(1, 3), R(-1), 2 * asin(R(-5, 13))), (R(3, 2), R(0), R(1), R(0))])],
         "Collins_Stewart": [({"gamma": R(10, 7)}, [(R(1), R(0), R(0), R(1, 2)), (R(32), R(1), R(2), R(-7, 4)), (R(1), R(3), R(0), R(7, 8))])],
         "Harvey_Tsoubelis": [({}, [(R(1), R(0), R(1, 2), R(1, 3)), (R(1, 2), ln(2), R(0), R(0)), (R(2, 3), ln(R(3, 2)), R(1), R(-1))])],
+        # exponents of t are 1+s-q, 2(s-q), 2(s+q): any t with the generic set at t = 1 only; half-integer / integer exponents
+        # (s, q) = (1/2, 0), (3/2, 1/2) allow t = 4, 9/4 and any rational t
         "Rosquist_Jantzen": [({"s": R(1, 3), "q": R(1, 7), "k": R(3, 2), "m": R(2, 5)},
-                              [(R(1), R(0), R(0), R(0)), (R(1), ln(2), R(1), R(1, 2)), (R(1), ln(R(2, 3)), R(0), R(-1))])],
+                              [(R(1), R(0), R(0), R(0)), (R(1), ln(2), R(1), R(1, 2))]),
+                             ({"s": R(1, 2), "q": R(0), "k": R(3, 2), "m": R(2, 5)}, [(R(4), ln(R(2, 3)), R(0), R(-1)), (R(9, 4), R(0), R(1), R(0))]),
+                             ({"s": R(3, 2), "q": R(1, 2), "k": R(1, 2), "m": R(3)}, [(R(2), ln(2), R(0), R(0)), (R(1, 3), ln(R(3, 2)), R(0), R(1))])],
         "EdS": [({"t_today": R(1)}, [(R(1), R(0), R(0), R(0)), (R(8), R(1), R(2), R(3)), (R(27, 8), R(0), R(1), R(0))])],
         "LCDM": [({"Om": R(9, 25), "H0": R(1, 2)}, ["today"])],
     }
